@@ -20,9 +20,11 @@ def facade_methods(prog):
     """public command methods of SCSI, from the source"""
     cls = prog.cls(SCSI_MOD, "SCSI")
     out = {}
-    for k, v in cls.attrs.items():
-        if isinstance(v, FuncVal) and not k.startswith("_") and k not in ("execute",):
-            out[k] = v
+    # (the class's own methods and those it gets from the classes it is assembled from)
+    for c in reversed([c for c in cls.mro() if isinstance(c, ClassVal) and not c.builtin]):
+        for k, v in c.attrs.items():
+            if isinstance(v, FuncVal) and not k.startswith("_") and k not in ("execute",):
+                out[k] = v
     return out
 
 
